@@ -132,7 +132,13 @@ int main(int argc, char **argv)
         } else if (op == "crypt") {
             if (t.size() != 3 || !parse_hex(t[2], b, null) || null || !o.ctr) die("crypt <hex>");
             Bytes out(b.size() + 1);
-            o.ctr->encrypt(out.data(), b.data(), b.size());
+            if (line_no & 1) {
+                /* every other call (odd script lines): output == input, which the class documents as allowed */
+                memcpy(out.data(), b.data(), b.size());
+                o.ctr->encrypt(out.data(), out.data(), b.size());
+            } else {
+                o.ctr->encrypt(out.data(), b.data(), b.size());
+            }
             printf("%lu out ", line_no); put_hex(out.data(), b.size()); putchar('\n');
         } else die("unknown op");
         fflush(stdout);
